@@ -46,6 +46,9 @@ impl Generator {
             self.min_opcodes
         };
 
+        #[cfg(feature = "verif")]
+        crate::verif::on_target(self, use_frame, target_opcodes);
+
         // generation phase - allow stack to grow and build complex structures
         for _ in 0..target_opcodes {
             let valid_ops = self.get_valid_opcodes();
@@ -55,10 +58,16 @@ impl Generator {
             }
             let chosen = self.weighted_choice(valid_ops, source);
             self.emit_and_process(chosen, source)?;
+            #[cfg(feature = "verif")]
+            crate::verif::on_body_step(self, chosen);
         }
 
         // cleanup phase - reduce stack to exactly 1 item for STOP
+        #[cfg(feature = "verif")]
+        crate::verif::on_phase(crate::verif::PHASE_TAIL);
         self.cleanup_for_stop();
+        #[cfg(feature = "verif")]
+        crate::verif::on_phase(crate::verif::PHASE_STOP);
 
         self.emit_opcode(OpcodeKind::Stop);
 
